@@ -30,3 +30,7 @@ claim("C02",
  "protocolVersion returns max(S∩H) when the sets intersect, else min(S), else the legacy values, with the plugin set registered under the returned version (S = served versions after legacy folding, H = successfully parsed entries of PLUGIN_PROTOCOL_VERSIONS), proved with loop invariants over the unspecified map iteration order; the client accepts exactly offered versions (checkProtoVersion) and adopts the set registered under the announced one.",
  "sort.Sort(sort.Reverse(sort.IntSlice)) is specified as an in-place non-increasing permutation (assumed); strings.Split/strconv.Atoi assumed; run-time use of the negotiated set by net/rpc or gRPC is not decided.",
  "DESIGN.md section 7 C02")
+claim("C10",
+ "parseJSON and flattenKVPairs are total and functionally specified (hclog keys moved only when strings, the remaining keys enumerated once each with their values); logStderr's per-line contract (verbatim copy then newline placement, continuation flag, exactly one log record per line at the level given by hclog JSON / [LEVEL] prefix / panic mode, kv arguments) is a loop invariant proved for every ReadLine result; the stderr and stdout reader goroutines return only when their stream is finished or broken and always signal their wait groups.",
+ "bufio.Reader.ReadLine, bufio.Scanner, encoding/json, hclog are assumed contracts; 'unchanged' is relative to ReadLine's notion of a line. Fixed defects D7 (unchecked type assertions) and D8 (stdout no longer drained after a scanner error).",
+ "DESIGN.md section 7 C10")
